@@ -47,10 +47,23 @@ def K(nodes):
 
 
 # ------------------------------------------------------------------------------------------------ expressions
+def _orient(c):
+    """`a > b` is `b < a`, `a >= b` is `b <= a` (both operands effect-free: the order of evaluation is immaterial)."""
+    if type(c.ops[0]) in ORD_SWAP and (pure_simple(c.left) or _intlike(c.left)) and (pure_simple(c.comparators[0]) or _intlike(c.comparators[0])):
+        n = ast.Compare(c.comparators[0], [ORD_SWAP[type(c.ops[0])]()], [c.left])
+        n._numeric = getattr(c, "_numeric", False)
+        return n
+    return c
+
+
 def neg(e):
     """Logical negation of an already normalised truth-value expression (an involution on normal forms)."""
     if isinstance(e, ast.UnaryOp) and isinstance(e.op, ast.Not):
         return e.operand
+    if isinstance(e, ast.Compare) and len(e.ops) == 1 and type(e.ops[0]) in ORD_FLIP and (getattr(e, "_numeric", False) or _intlike(e.left) or _intlike(e.comparators[0])):
+        n = ast.Compare(e.left, [ORD_FLIP[type(e.ops[0])]()], e.comparators)      # numbers are totally ordered
+        n._numeric = True
+        return _orient(n)
     if isinstance(e, ast.Compare) and len(e.ops) == 1 and type(e.ops[0]) in FLIP:
         return _cmp(ast.Compare(e.left, [FLIP[type(e.ops[0])]()], e.comparators))
     if isinstance(e, ast.BoolOp):
@@ -60,8 +73,40 @@ def neg(e):
     return ast.UnaryOp(ast.Not(), e)
 
 
+_PURE_NOW = [frozenset()]      # effect-free method names of the tree whose function is being normalised (set by Restorer.function)
+
+
+def _intlike(e):
+    """An expression that can only be an int: comparing it with < <= > >= makes the other side a number too (or raises either way)."""
+    if isinstance(e, ast.Constant):
+        return isinstance(e.value, int) and not isinstance(e.value, bool)
+    if isinstance(e, ast.UnaryOp) and isinstance(e.op, (ast.USub, ast.UAdd)):
+        return _intlike(e.operand)
+    if isinstance(e, ast.BinOp) and isinstance(e.op, (ast.LShift, ast.Add, ast.Sub, ast.Mult, ast.RShift)):
+        return _intlike(e.left) or _intlike(e.right)
+    if isinstance(e, ast.Call) and isinstance(e.func, ast.Name) and e.func.id in ("len", "ord", "int"):
+        return True
+    return False
+
+
+ORD_FLIP = {ast.Lt: ast.GtE, ast.LtE: ast.Gt, ast.Gt: ast.LtE, ast.GtE: ast.Lt}
+ORD_SWAP = {ast.Gt: ast.Lt, ast.GtE: ast.LtE}
+
+
+def _boolvalued(e):
+    if isinstance(e, ast.Compare) or (isinstance(e, ast.UnaryOp) and isinstance(e.op, ast.Not)) or (isinstance(e, ast.Constant) and isinstance(e.value, bool)):
+        return True
+    if isinstance(e, ast.BoolOp):
+        return all(_boolvalued(v) for v in e.values)
+    return isinstance(e, ast.Call) and isinstance(e.func, ast.Name) and e.func.id in ("isinstance", "any", "all", "bool", "issubclass", "hasattr")
+
+
 def _cmp(e):
-    if len(e.ops) == 1 and isinstance(e.ops[0], (ast.Eq, ast.NotEq)) and pure_simple(e.left) and pure_simple(e.comparators[0]):
+    # membership in a list display of effect-free elements is membership in the tuple
+    if len(e.ops) == 1 and isinstance(e.ops[0], (ast.In, ast.NotIn)) and isinstance(e.comparators[0], ast.List) and all(pure_simple(x) for x in e.comparators[0].elts):
+        e = ast.Compare(e.left, e.ops, [ast.Tuple(e.comparators[0].elts, ast.Load())])
+    if len(e.ops) == 1 and isinstance(e.ops[0], (ast.Eq, ast.NotEq)) and (pure_simple(e.left) or _is_pure_value(e.left, _PURE_NOW[0])) \
+            and (pure_simple(e.comparators[0]) or _is_pure_value(e.comparators[0], _PURE_NOW[0])):
         a, b = e.left, e.comparators[0]
         if ast.dump(a) > ast.dump(b):
             e = ast.Compare(b, e.ops, [a])
@@ -109,11 +154,28 @@ def nexpr(e, test=False):
             return neg(inner)
         if isinstance(inner, ast.Compare) and len(inner.ops) == 1 and type(inner.ops[0]) in FLIP:
             return neg(inner)
+        cand = neg(inner)
+        if _boolvalued(cand):                               # De Morgan is exact where every operand of the result is a bool anyway
+            return cand
         return ast.UnaryOp(ast.Not(), inner)
     if isinstance(e, ast.BoolOp):
         return _bool(ast.BoolOp(e.op, [nexpr(v, test) for v in e.values]), test)
     if isinstance(e, ast.Compare):
-        return _cmp(ast.Compare(nexpr(e.left), [type(o)() for o in e.ops], [nexpr(c) for c in e.comparators]))
+        c = ast.Compare(nexpr(e.left), [type(o)() for o in e.ops], [nexpr(c) for c in e.comparators])
+        # a chain over effect-free middle operands is the conjunction of its links; where one operand can only be an int, all are numbers
+        if len(c.ops) > 1 and all(pure_simple(m) for m in c.comparators[:-1]) and all(type(o) in ORD_FLIP for o in c.ops):
+            operands = [c.left] + c.comparators
+            numeric = any(_intlike(x) for x in operands)
+            links = []
+            for k, o in enumerate(c.ops):
+                lk = ast.Compare(operands[k], [o], [operands[k + 1]])
+                lk._numeric = numeric
+                links.append(_orient(lk))
+            return ast.BoolOp(ast.And(), links)
+        if len(c.ops) == 1 and type(c.ops[0]) in ORD_FLIP:
+            c._numeric = _intlike(c.left) or _intlike(c.comparators[0])
+            return _orient(c)
+        return _cmp(c)
     if isinstance(e, ast.IfExp):
         return ast.IfExp(nexpr(e.test, True), nexpr(e.body, test), nexpr(e.orelse, test))
     if isinstance(e, ast.Call) and _isinst(e) and isinstance(e.args[1], ast.Tuple) and len(e.args[1].elts) == 1:
@@ -902,6 +964,8 @@ def nstmt(st, info):
         t = nexpr(st.test, True)
         A = nlist(st.body, info)
         B = nlist(st.orelse, info) if st.orelse else []
+        if len(B) == 1 and isinstance(B[0], ast.Pass):
+            B = []
         if not B:
             # merge nested ifs
             if len(A) == 1 and isinstance(A[0], ast.If) and not A[0].orelse:
@@ -972,6 +1036,7 @@ class Restorer:
         if ast.dump(cf) == ast.dump(rf):
             return False
         ic, ir = FnInfo(cf, self.pure_c), FnInfo(rf, self.pure_r)
+        _PURE_NOW[0] = self.pure_c & self.pure_r
         before = ast.dump(cf)
         if _args_key(cf.args) == _args_key(rf.args) and K(cf.decorator_list) == K(rf.decorator_list):
             try:
